@@ -19,7 +19,7 @@ const unit = time.Hour
 
 // classes of peer misbehaviour that break the binding between a block id and its header
 // (the carried Hash is kept, the header is altered); see notes/C17.md
-const classForgedNo = "C17-chunk-order-by-unverified-header-no"
+const classForgedNo = "C17-header-not-bound-to-id"
 
 type outFetch struct {
 	peer   int
@@ -379,6 +379,9 @@ func (s *fsess) answer(i int, kind int) {
 		c := cloneBlock(blocks[j])
 		c.Header.PrevBlockHash = otherHash
 		blocks[j] = c
+		if j == 0 {
+			s.forged = true // inside a chunk the link check catches it; the first block's parent is not looked at
+		}
 	case 11: // id kept, height field altered
 		name = "forged-height"
 		blocks = append([]*types.Block{}, good...)
